@@ -67,14 +67,18 @@ P = {
             "proved, by the counting allocator around every call (both feature sets) and by the 16 no_std switch-combination builds.",
             "Coq proof (vm_compute over the translated name table) + counting-allocator differential runs + no_std builds"),
     "C20": ("proof",
-            "Theorems request/response/headers/chunk_work_linear, request_travel_exact, set_cursor_never_called (Thm/C20.v) about the COST MODEL: "
+            "Theorems request/response/headers/chunk_work_linear, request_travel_exact, set_cursor_never_called, cost_model_runs_the_model_* (Thm/C20.v) about the COST MODEL: "
             "textual copies (regenerated each run) of Scan.v/Model.v/Backends.v and the translated loop shells compiled against a cursor with work "
             "counters (CursorC.v), sequenced as in lib.rs (CostTop.v). For every backend (any word width), config, capacity, buffer and outcome: "
             "ticks <= 32*len + 80 (potential method; the backward trim of each value is paid by the bytes of that value), travel <= len, "
-            "travel + unread = len on completion; set_cursor is never called (translated name table). PARTIAL: tied to the crate by correspondence "
-            "(outcome class and cursor travel of the extracted cost model = the cfg(httparse_verif) counters, 3 forced backends), not by proof; "
-            "time is measured (wall-clock scaling on adversarial families), not proved.",
-            "Coq proof over a cost-instrumented copy of the model + counter correspondence + wall-clock scaling"),
+            "travel + unread = len on completion; set_cursor is never called (translated name table). "
+            "cost_model_runs_the_model_request/response/headers/chunk (Proofs/Erase.v): with the two counters forgotten, every stage function, "
+            "every scanner loop of every backend and the call sequences of the cost model compute exactly what Scan.v / Model.v / Backends.v / "
+            "Api.v compute (same outcome class and error kind), so the bounds hold of the executions of the model (and, by source_tie, of the "
+            "translated source). PARTIAL: which operation costs a tick is a modelling choice; the counters are tied to the crate by correspondence "
+            "(outcome class and cursor travel of the extracted cost model = the cfg(httparse_verif) counters, 3 forced backends); "
+            "time is measured (wall-clock scaling on adversarial families, runtime-AVX2 and SIMD-disabled builds), not proved.",
+            "Coq proof over a cost-instrumented copy of the model (proved to erase to the model) + counter correspondence + wall-clock scaling"),
     "C06": ("proof",
             "Theorem request_ref_eq / request_entries_ref_eq (Thm/C06.v): the model of all four request entry points equals the span-level "
             "reference grammar ref_request for every backend satisfying EnvOk, config, capacity and buffer (unbounded). Tie: model vs crate "
